@@ -351,6 +351,10 @@ class EffectAnalysis:
                                 node.op, (ast.Add, ast.Mult)) \
                                 and e.id not in shadow:
                             al = {(p, el) for p, el in fs.alias.get(e.id, ())}
+                            if al and self._dominating_fresh_def(node, e.id,
+                                                                 fs):
+                                al = set()  # rebound to a fresh value on
+                                # every path that reaches this statement
                             if al:
                                 add(muts, "mutates-if-list", al, node,
                                     f"{e.id} {'+=' if isinstance(node.op, ast.Add) else '*='} ... "
@@ -390,6 +394,54 @@ class EffectAnalysis:
                         add(forces, "forces", al, node,
                             f"comprehension over {ast.unparse(g.iter)[:30]}")
         return muts, forces
+
+    def _dominating_fresh_def(self, node, name, fs):
+        """Is `name` (re)bound by an unconditional plain assignment of a
+        value that aliases no parameter, earlier in one of the blocks that
+        enclose `node`, with nothing in between that could bind it to an
+        alias?  (Statements after the definition may only re-assign it
+        through augmented assignments or other fresh values.)"""
+        def binds(st):
+            return [n for n in ast.walk(st) if isinstance(n, ast.Name)
+                    and n.id == name and isinstance(n.ctx, ast.Store)]
+
+        def fresh_value(v):
+            # a constant, or a container / string built on the spot (growing
+            # it in place changes the new object, not the argument)
+            return isinstance(v, (ast.Constant, ast.List, ast.Tuple, ast.Dict,
+                                  ast.Set, ast.ListComp, ast.SetComp,
+                                  ast.DictComp, ast.JoinedStr))
+
+        child = node
+        cur = getattr(node, "_parent", None)
+        while cur is not None:
+            for field in ("body", "orelse", "finalbody"):
+                seq = getattr(cur, field, None)
+                if isinstance(seq, list) and any(child is x for x in seq):
+                    i = [k for k, x in enumerate(seq) if x is child][0]
+                    for prev in reversed(seq[:i]):
+                        if isinstance(prev, ast.Assign) and len(
+                                prev.targets) == 1 and isinstance(
+                                prev.targets[0], ast.Name) \
+                                and prev.targets[0].id == name:
+                            return fresh_value(prev.value)
+                        bs = binds(prev)
+                        if bs and not all(isinstance(
+                                getattr(b, "_parent", None), ast.AugAssign)
+                                for b in bs):
+                            return False
+            if isinstance(cur, (ast.For, ast.While)):
+                # a loop body may run after an earlier iteration re-bound
+                # the name: only augmented re-bindings are tolerated
+                bs = [b for st in cur.body for b in binds(st)]
+                if not all(isinstance(getattr(b, "_parent", None),
+                                      ast.AugAssign) for b in bs):
+                    return False
+            if cur is fs.node:
+                break
+            child = cur
+            cur = getattr(cur, "_parent", None)
+        return False
 
     def _requires(self, node, fs):
         """parameters of fs that must be `is not None` for `node` to run:
